@@ -61,17 +61,25 @@ def run_case(case) -> List[Tuple[str, str]]:
     work = tempfile.mkdtemp(prefix="c10_", dir=case["workdir"])
     outs = {}
     try:
-        for mode in ("batch", "loop"):
+        # batch: the driver with the parallel gate open; seq: the driver's own sequential path (gate closed);
+        # loop: the reference - a plain loop of turns, one proper context per agent, no driver involved
+        cadence = {1: 1, 2: 2, 3: 7}.get(case["workers"], 1)       # turn 7: cadence 2 -> no snapshot, 1 and 7 -> snapshot
+        for mode in ("batch", "seq", "loop"):
             d = os.path.join(work, mode)
             logdir, snapdir = os.path.join(d, "logs"), os.path.join(d, "snaps")
             os.makedirs(logdir)
-            cfg = E.validated_cfg({"t4": {"enabled": not case.get("kill", False), "snapshot_dir": snapdir, "snapshot_every_n_turns": 1},
+            cfg = E.validated_cfg({"t4": {"enabled": not case.get("kill", False), "snapshot_dir": snapdir, "snapshot_every_n_turns": cadence,
+                                          "cache_bust_mode": "on-apply", "cache": {"enabled": True, "namespaces": ["t2:semantic"]}},
                                    "perf": {"enabled": True, "parallel": {"enabled": mode == "batch", "agents": True, "max_workers": max(2, case["workers"])}}})
             # worker limit 1 closes the gate by definition; the model's workers=1 is realised with the gate
             # open through the selection limit (max_workers is read again by the selector)
             store = E.RecordingStore()
             state: Dict[str, Any] = {"store": store, "version_etag": "0", "_boot_loaded": True,
                                      "graphs_by_agent": {a: sorted(case["gsets"][i]) for i, a in enumerate(agents)}}
+            from clematis.engine.cache import CacheManager
+            cm = CacheManager(max_entries=64, ttl_sec=600, time_fn=lambda: 1000.0)
+            cm.set("t2:semantic", ("k", 0), "v")
+            state["_cache_mgr"] = cm
             ctx = E.mk_ctx(cfg, "driver", 7, now=None)
 
             computes: List[Tuple[str, bool, int]] = []      # (agent, dry-run?, commits seen so far) per compute call
@@ -115,7 +123,10 @@ def run_case(case) -> List[Tuple[str, str]]:
                 p.__enter__()
             raised, results = None, []
             try:
-                results = par._run_agents_parallel_batch(ctx, state, [(a, f"text{i}") for i, a in enumerate(agents)])
+                if mode == "loop":
+                    results = [double(None, E.mk_ctx(cfg, a, 7, now=None), state, f"text{i}") for i, a in enumerate(agents)]
+                else:
+                    results = par._run_agents_parallel_batch(ctx, state, [(a, f"text{i}") for i, a in enumerate(agents)])
             except Exception as e:
                 raised = f"{type(e).__name__}: {e}"
             finally:
@@ -141,7 +152,23 @@ def run_case(case) -> List[Tuple[str, str]]:
                         snaps[f] = fh.read()
             outs[mode] = {"raised": raised, "results": [r.line for r in results], "files": files, "snaps": snaps, "computes": list(computes),
                           "applied": dict(store.applied), "weights": dict(store.weights), "version": state.get("version_etag")}
-        b, l = outs["batch"], outs["loop"]
+        b, l, sq = outs["batch"], outs["loop"], outs["seq"]
+        # the driver's sequential path is the plain loop, whatever the graph sets
+        if sq["raised"]:
+            fails.append(("ResultsEqual", f"gsets={case['gsets']} cadence={cadence}: the driver's sequential path raised {sq['raised']}"))
+        else:
+            for fld in ("results", "applied", "weights", "version", "files"):
+                if sq[fld] != l[fld]:
+                    det = ""
+                    if fld == "files":
+                        f = next(f for f in sorted(set(sq["files"]) | set(l["files"])) if sq["files"].get(f) != l["files"].get(f))
+                        det = f" ({f}: {(sq['files'].get(f) or [None])[0]!r:.200} vs {(l['files'].get(f) or [None])[0]!r:.200})"
+                    fails.append(("FinalStateEqual" if fld in ("applied", "weights", "version") else ("LogLinesEqualPerFile" if fld == "files" else "ResultsEqual"),
+                                  f"gsets={case['gsets']} cadence={cadence}: the driver's sequential path differs from the plain loop in {fld}{det}"))
+                    break
+            if sorted(sq["snaps"]) != sorted(l["snaps"]):
+                fails.append(("FinalStateEqual", f"gsets={case['gsets']} cadence={cadence}: snapshot files of the driver's sequential path {sorted(sq['snaps'])} "
+                                                 f"vs the plain loop {sorted(l['snaps'])}"))
         where = f"gsets={case['gsets']} workers={case['workers']} limit={case['limit']} sizes={sizes}" + (" KILL-SWITCH" if case.get("kill") else "")
         if case.get("kill") and (b["applied"] or str(b["version"]) != "0" or b["files"].get("apply.jsonl") or b["snaps"]):
             fails.append(("FinalStateEqual", f"{where}: kill switch on, but the batch driver applied {b['applied']}, version {b['version']!r}, "
